@@ -135,12 +135,17 @@ def _auth_disjuncts(cls: ast.ClassDef) -> tuple[bool, list[tuple[str, str, str]]
     kind = "attr" payload = the ``self._<attr>`` iterated / tested for membership
     """
     fn = _find_func(cls, "process_request")
-    assign = None
-    for n in ast.walk(fn):
-        if isinstance(n, ast.Assign) and len(n.targets) == 1 and isinstance(n.targets[0], ast.Name) and n.targets[0].id == "exempt":
-            assign = n
-    if assign is None:
+    # `exempt` must be bound exactly once, by a plain top-level statement of process_request (no conditional rebinding, no
+    # lookup of a remembered verdict): the verdict has to be a function of the current request alone
+    binds = [
+        n for n in ast.walk(fn)
+        if (isinstance(n, (ast.Assign, ast.AnnAssign, ast.AugAssign, ast.NamedExpr))
+            and any(isinstance(t, ast.Name) and t.id == "exempt"
+                    for t in (n.targets if isinstance(n, ast.Assign) else [n.target])))
+    ]
+    if len(binds) != 1 or not isinstance(binds[0], ast.Assign) or binds[0] not in fn.body:
         return False, [], False
+    assign = binds[0]
     val = assign.value
     disj = val.values if isinstance(val, ast.BoolOp) and isinstance(val.op, ast.Or) else [val]
     options = False
@@ -218,6 +223,57 @@ def _auth_disjuncts(cls: ast.ClassDef) -> tuple[bool, list[tuple[str, str, str]]
                     if isinstance(c, ast.Call) and ast.unparse(c.func) == "self._authenticate":
                         guard_ok = False
     return options, out, ok and guard_ok
+
+
+_MUTATORS = {"append", "add", "setdefault", "pop", "popitem", "update", "clear", "extend", "insert", "remove", "discard",
+             "move_to_end", "appendleft", "put", "cache_clear", "__setitem__"}
+
+
+def _stateless(cls: ast.ClassDef) -> bool:
+    """The middleware keeps nothing between requests.
+
+    * `__init__` only copies constructor parameters (`self._x = x`), so no container is created to be filled later;
+    * outside `__init__` no method stores into / deletes from `self` (attribute, subscript, augmented assignment) or calls a
+      mutating container method on a `self` attribute;
+    * no `global` / `nonlocal`, no decorator on the request hooks (a memoising decorator is state too), no class-level
+      mutable attribute besides `__slots__`.
+    """
+    def rooted_in_self(e: ast.expr) -> bool:
+        while isinstance(e, (ast.Attribute, ast.Subscript)):
+            e = e.value
+        return isinstance(e, ast.Name) and e.id == "self"
+
+    for item in cls.body:
+        if isinstance(item, (ast.Assign, ast.AnnAssign)):
+            tgt = item.targets[0] if isinstance(item, ast.Assign) else item.target
+            if not (isinstance(tgt, ast.Name) and tgt.id == "__slots__"):
+                return False
+        if not isinstance(item, ast.FunctionDef):
+            continue
+        if item.name in ("process_request", "process_response", "process_resource") and item.decorator_list:
+            return False
+        params = {a.arg for a in item.args.args + item.args.kwonlyargs}
+        for n in ast.walk(item):
+            if isinstance(n, (ast.Global, ast.Nonlocal)):
+                return False
+            targets: list[ast.expr] = []
+            if isinstance(n, ast.Assign):
+                targets = list(n.targets)
+            elif isinstance(n, (ast.AnnAssign, ast.AugAssign)):
+                targets = [n.target]
+            elif isinstance(n, ast.Delete):
+                targets = list(n.targets)
+            for t in targets:
+                for sub in ast.walk(t):
+                    if isinstance(sub, (ast.Attribute, ast.Subscript)) and rooted_in_self(sub):
+                        if item.name == "__init__" and isinstance(n, ast.Assign) and isinstance(n.value, ast.Name) \
+                                and n.value.id in params and isinstance(t, ast.Attribute):
+                            continue
+                        return False
+            if isinstance(n, ast.Call) and isinstance(n.func, ast.Attribute) and n.func.attr in _MUTATORS \
+                    and rooted_in_self(n.func.value):
+                return False
+    return True
 
 
 def _loop_entries(cls: ast.ClassDef) -> tuple[list[tuple[str, str]], bool]:
@@ -448,6 +504,7 @@ def emit() -> dict[str, str]:
     st = ast.parse((REPO / STICKY).read_text())
     auth_cls = _find_class(mw, "_AuthMiddleware")
     options, disj, recognised = _auth_disjuncts(auth_cls)
+    stateless = _stateless(auth_cls)
     attr2param = _init_param_of_attr(auth_cls)
     fs = _factory_shapes()
     auth_kw = fs["ctor"].get("_AuthMiddleware", {})
@@ -523,13 +580,15 @@ structure AuthShape where
   literals : List (Cmp × List Char)         -- disjuncts comparing `req.path` with a string literal
   entries : List Entry                      -- disjuncts over `self._exempt_*`, expanded with the factory's templates
   recognised : Bool                         -- every disjunct, the guard and every factory template were recognised
+  stateless : Bool                          -- the middleware stores nothing between requests (no write to `self` outside `__init__`)
 deriving Repr, DecidableEq
 
 def auth : AuthShape :=
   {{ optionsExempt := {str(options).lower()},
     literals := [{", ".join(literals)}],
     entries := [{", ".join(entries)}],
-    recognised := {str(bool(recognised)).lower()} }}
+    recognised := {str(bool(recognised)).lower()},
+    stateless := {str(bool(stateless)).lower()} }}
 
 /-- `_MaxRequestBytesMiddleware.process_request` exemption loop (consumed by C17) -/
 def size : List Entry := [{", ".join(size_entries)}]
